@@ -94,7 +94,7 @@ func crashChild() {
 	if err != nil {
 		fail("reading state: %v", err)
 	}
-	if err := RegisterVFS(); err != nil {
+	if err := RegisterVFSDefault(); err != nil {
 		fail("vfs: %v", err)
 	}
 	out := os.Stdout
@@ -150,11 +150,13 @@ func crashChild() {
 		}
 		VFSSetCrash(VFSOpCount()+n, torn)
 	}
-	db, err := sql.Open("sqlite3-sim", "file:"+path+"?vfs=verifsim")
+	db, err := prodOpen("sqlite3-sim", path) // as cmd/omniwitness opens --db_file (the shim is this process's default VFS)
 	if err != nil {
 		fail("open: %v", err)
 	}
-	db.SetMaxOpenConns(1)
+	if trace {
+		fmt.Fprintf(out, "TRACE prodopen %s\n", prodOpenSource)
+	}
 	known, _ := w.KnownLogs()
 	signers, _ := w.Signers()
 	wit, err := witness.New(witness.Opts{Persistence: psql.NewPersistence(db), Signers: signers, KnownLogs: known})
